@@ -165,6 +165,56 @@ fn main() {
             }
         }
     }
+    // thin sliver triangles, exhaustively: every non-degenerate vertex triple of a 7 x 5 grid whose doubled area is at
+    // most 6, with inside strokes of width 2 and 3 (the stroke may fill the whole sliver) and a centre stroke
+    {
+        let (gw, gh) = (7i32, 5i32);
+        let cells: Vec<(i32, i32)> = (0..gw * gh).map(|k| (k % gw - 3, k / gw - 2)).collect();
+        let mut n = 0usize;
+        for a in 0..cells.len() {
+            for b in 0..cells.len() {
+                for c in (b + 1)..cells.len() {
+                    let (p, q, r) = (cells[a], cells[b], cells[c]);
+                    let area2 = ((q.0 - p.0) * (r.1 - p.1) - (r.0 - p.0) * (q.1 - p.1)).abs();
+                    if area2 == 0 || area2 > 6 {
+                        continue;
+                    }
+                    n += 1;
+                    if !th && n % 2 == 0 {
+                        continue;
+                    }
+                    let (w, al) = [(2u32, 0u32), (3, 0), (2, 1)][n % 3];
+                    let shape = json!({"k":"triangle","v":[[p.0, p.1], [q.0, q.1], [r.0, r.1]]});
+                    run_case(&mut rec, &json!({"d": {"kind":"prim","shape":shape,"style":style_desc(-1, col.stroke, w, al)}, "ct": "Rgb565"}));
+                }
+            }
+        }
+    }
+    // thick polylines with an interior vertex exactly on the straight, non axis-aligned line between its neighbours,
+    // followed by every fourth vertex of a neighbourhood
+    {
+        let mut n = 0usize;
+        for d in [(1, 1), (-1, 1), (1, -1), (-1, -1), (2, 1), (-2, 1), (1, 2), (1, -2), (-2, -1), (2, -1), (-1, 2), (-1, -2)] {
+            for k in 1..=2 {
+                let a = (0, 0);
+                let b = (a.0 + d.0, a.1 + d.1);
+                let c = (b.0 + k * d.0, b.1 + k * d.1);
+                for ex in -3..=3 {
+                    for ey in -3..=3 {
+                        n += 1;
+                        if !th && n % 2 == 0 {
+                            continue;
+                        }
+                        let e = (c.0 + ex, c.1 + ey);
+                        let w = 2 + (n as u32 % 2);
+                        let v = if n % 3 == 0 { json!([[e.0, e.1], [a.0, a.1], [b.0, b.1], [c.0, c.1]]) } else { json!([[a.0, a.1], [b.0, b.1], [c.0, c.1], [e.0, e.1]]) };
+                        let shape = json!({"k":"polyline","v":v,"off":[0, 0]});
+                        run_case(&mut rec, &json!({"d": {"kind":"prim","shape":shape,"style":style_desc(-1, col.stroke, w, 1)}, "ct": "Rgb565"}));
+                    }
+                }
+            }
+        }
+    }
     // very large arcs and sectors (the truncated 1/1024 border directions are off by several pixels at this radius)
     for (d, a0, sw, w) in [(5716u32, 100i32 * 16, 1419i32, 11u32), (8001, -37 * 16, 2011, 3), (6400, 200 * 16 + 5, -1111, 1), (7000, 45 * 16, 16 * 90 + 7, 20)] {
         for kind in ["arc", "sector"] {
